@@ -63,6 +63,9 @@ CLAIMS = {
  'C02': dict(tech='TermFlow term identities (extent/index agreement), copy-discipline proofs, gating of finger-raising stores',
    text='Decides the structural part: for the seven slice methods the element count reserved, the count initialised (copy count or loop bound) and the count returned are one term, writes go to reserved_base + i*size_of::<T>() with i exactly the index given to the single callback whose result is the value written (or index/value of one enumerate item); value methods write f() once at the reserved pointer; grow/shrink/realloc copy min(old,new) bytes and never copy_nonoverlapping without a disjointness proof; the default realloc copies min(old,new); every store that raises a bump finger is gated by is_last_allocation and bounded by the released block, so no live block is handed out again. Read-back equality of contents as such is a runtime-value statement and is not decided.',
    ref='DESIGN.md section 4 C02'),
+ 'C13': dict(tech="std's algorithms encoded as term equalities checked by TermFlow; strict/non-strict facts on panic edges; panic-safety typestate",
+   text="Decides necessary conditions of agreement with std::vec::Vec that hold for all inputs: insert/remove/split_off/drain panic exactly on std's conditions (the edge into the panic carries exactly that fact); insert, remove, push, pop, swap_remove, split_off, append, extend_from_slice_copy, the drain constructor and into_iter perform exactly std's reads, writes, memmove/memcpy (source, destination, count) and length updates in std's order (49 formula clauses compared after linear normalisation over BASE + i*size_of::<T>()); reserve* forward (len, additional); every RawVec (re)allocation stores the returned pointer; the length is consistent wherever user code can unwind. Equality of results with std for every program (contents after arbitrary sequences) is a runtime-value statement and is not decided.",
+   ref='DESIGN.md section 4 C13'),
 }
 
 NOT_YET = 'check not built yet (build in progress, see DESIGN.md section 9)'
